@@ -2767,8 +2767,9 @@ class HasTraits(CHasTraits, metaclass=MetaHasTraits):
         del locked[name]
 
     def _sync_trait_items_modified(self, object, name, old, event):
-        n0 = event.index
-        n1 = n0 + len(event.removed)
+        index = event.index
+        if not isinstance(index, slice):
+            index = slice(index, index + len(event.removed))
         name = name[:-6]
         info = self.__sync_trait__
         if name not in info:
@@ -2780,7 +2781,11 @@ class HasTraits(CHasTraits, metaclass=MetaHasTraits):
             object = object()
             if object_name not in object._get_sync_trait_info()[""]:
                 try:
-                    getattr(object, object_name)[n0:n1] = event.added
+                    if event.added or index.step is None:
+                        getattr(object, object_name)[index] = event.added
+                    else:
+                        # Items deleted through an extended slice.
+                        del getattr(object, object_name)[index]
                 except:
                     pass
 
